@@ -202,6 +202,13 @@ type c10CmdCase struct {
 	Err      int       `json:"err"`
 }
 
+// vBrokenPipe is a sink whose reader has gone away: every write fails with EPIPE, as os.Stdout does then.
+type vBrokenPipe struct{}
+
+func (vBrokenPipe) Write(p []byte) (int, error) {
+	return 0, &os.PathError{Op: "write", Path: "/dev/stdout", Err: syscall.EPIPE}
+}
+
 func checkC10Cmd(c c10CmdCase, ctx *vCtx) *vFailure {
 	cmd := vAPICmds[c.Cmd]
 	onLog := c.OnLog
@@ -235,7 +242,13 @@ func checkC10Cmd(c c10CmdCase, ctx *vCtx) *vFailure {
 			dr = fr
 		}
 		var out strings.Builder
-		err, pan := vCallAPI(cmd, lr, dr, &out, x)
+		var sink io.Writer = &out
+		if (k+len(target))%3 == 0 {
+			// the reader of the report has gone away as well (a closed pipe): two failures are still a failure
+			sink = vBrokenPipe{}
+			ctx.Label("output-is-a-broken-pipe-too")
+		}
+		err, pan := vCallAPI(cmd, lr, dr, sink, x)
 		ctx.Run(1)
 		if pan != "" {
 			return vFailf("%s panics when its %s reader fails at byte %d: %s", cmd.Name, map[bool]string{true: "log", false: "book"}[onLog], k, vTrunc(pan, 1000))
